@@ -383,8 +383,8 @@ def check_tree(st: Stats, root_name, body, cfg_name="?") -> None:
             nt = nearest(op)
             calls += 1
             st.evaluations += 1
-            if nt is not nd.table.op:
-                st.violate("C29|utils.get_nearest_symbol_table|from-op|wrong-table",
+            if nt is not nd.table.op and not again(sig := "C29|utils.get_nearest_symbol_table|from-op|wrong-table"):
+                st.violate(sig,
                            f"get_nearest_symbol_table({show(nd)}) returned {show(by_id.get(id(nt))) if nt is not None else None}",
                            wit("utils.get_nearest_symbol_table", nd, (), "-", nt, row[0], {"expected_table": show(nd.table)}))
         except Exception as ex:  # noqa: BLE001
@@ -416,8 +416,9 @@ def check_tree(st: Stats, root_name, body, cfg_name="?") -> None:
             else:
                 if g3 is not a0:
                     compare("traits.SymbolTable.lookup_symbol", nd, names, form, g3, e)
-            if verified and g1 is not g2 and g1 is not SENT and g2 is not SENT:
-                st.violate(f"C29|cached-vs-direct|lookup_nearest_symbol_from|{'flat' if len(names) == 1 else 'nested'}-disagree",
+            if verified and g1 is not g2 and g1 is not SENT and g2 is not SENT and not again(
+                    sig := f"C29|cached-vs-direct|lookup_nearest_symbol_from|{'flat' if len(names) == 1 else 'nested'}-disagree"):
+                st.violate(sig,
                            f"on a verified module SymbolTableCollection and SymbolTable disagree on {show_ref(names)} from {show(nd)}",
                            wit("cached-vs-direct lookup_nearest_symbol_from", nd, names, form, g2, e,
                                {"direct": show(by_id.get(id(g1))) if g1 is not None else None}))
@@ -460,10 +461,10 @@ def check_tree(st: Stats, root_name, body, cfg_name="?") -> None:
                             if len(c) == len(gl) and all(x.op is y for x, y in zip(c, gl)):
                                 ok = True
                                 break
-                    if not ok:
-                        depth = "flat" if len(names) == 1 else "nested"
-                        kind = "chain-" + (_failure_kind(gl[-1] if isinstance(gl, list) and gl else None, e))
-                        st.violate(f"C29|{api}[all_symbols]|{depth}|{kind}",
+                    if not ok and not again(
+                            sig := f"C29|{api}[all_symbols]|{'flat' if len(names) == 1 else 'nested'}|chain-"
+                            + _failure_kind(gl[-1] if isinstance(gl, list) and gl else None, e)):
+                        st.violate(sig,
                                    f"{api}({show(t)}, {show_ref(names)}, all_symbols=True) does not return a designated chain",
                                    wit(api + "[all_symbols]", t, names, form, gl if isinstance(gl, list) else repr(gl), e,
                                        {"designated_chains": [[show(x) for x in c] for c in e.chains]}))
@@ -488,8 +489,9 @@ def check_tree(st: Stats, root_name, body, cfg_name="?") -> None:
                         gx, gy = got[x], got[y]
                         same = (gx is gy) if not isinstance(gx, list) or not isinstance(gy, list) else (
                             len(gx) == len(gy) and all(p is q for p, q in zip(gx, gy)))
-                        if not same:
-                            st.violate(f"C29|cached-vs-direct|{y.rsplit('.', 1)[-1]}|{'flat' if len(names) == 1 else 'nested'}-disagree",
+                        if not same and not again(
+                                sig := f"C29|cached-vs-direct|{y.rsplit('.', 1)[-1]}|{'flat' if len(names) == 1 else 'nested'}-disagree"):
+                            st.violate(sig,
                                        f"on a verified module the cached and the direct lookup of {show_ref(names)} in {show(t)} disagree",
                                        wit("cached-vs-direct " + y, t, names, form, gy if not isinstance(gy, list) else gy, e,
                                            {"direct": [show(by_id.get(id(q))) for q in gx] if isinstance(gx, list)
